@@ -168,7 +168,7 @@ impl Prop for C05 {
     type Case = Case;
     const ID: &'static str = "C05";
     const NUM: u64 = 5;
-    const RULE: &'static str = "weighted digraphs as in C03 (order 1..12 quick / 1..40 thorough) with distinct sources and a generated target subset T (empty, singleton, several, containing a source, unreachable only); BfsPred is run on the arc set in all five representations, DijkstraPred on AdjacencyListWeighted<usize>; enum leg: all digraphs of order <=3 with weights {1,2} x source lists x target subsets. Non-trivial = T holds >=2 reachable vertices at different distances, or a source is a target, or a superseded heap entry is popped before the last vertex settles; distinct = distinct serialised case.";
+    const RULE: &'static str = "weighted digraphs as in C03 (order 1..12 quick / 1..40 thorough) with distinct sources and a generated target subset T (empty, singleton, several, containing a source, unreachable only); BfsPred is run on the arc set in all five representations, DijkstraPred on AdjacencyListWeighted<usize>; enum leg: all digraphs of order <=3 with weights {1,2} x source lists x target subsets. About one random case in 25 has a large order (17..140, weighted towards 63..66, 96, 127..130, 140; at most 700 arcs). Non-trivial = T holds >=2 reachable vertices at different distances, or a source is a target, or a superseded heap entry is popped before the last vertex settles; distinct = distinct serialised case.";
     const ASSUMPTIONS: &'static [&'static str] = &[
         "which of several shortest paths / predecessors is returned is free",
         "cycles(): only soundness (every returned sequence is an elementary cycle), completeness is disclaimed by the documentation",
